@@ -47,8 +47,19 @@ def call_shape(np_, variant, nargs, ctx, nres, kind):
             return p.call(p.id("callee"), args)
     elif kind == "method":
         ss.append(p.local(["obj"], [p.table([("k", p.add("str", s=[109], name=True), p.func(["self"] + ps, body, va=va, ud=ud))])]))
+        # the receiver expression: a local, a global, a field, a call result, a parenthesised expression
+        # (anything but a local makes the compiler evaluate it into the register next to the method's)
+        recv = ["local", "global", "field", "call", "paren"][(np_ + 2 * nargs + 3 * nres + len(ctx)) % 5]
+        if recv == "global":
+            ss.append(p.assign([p.id("gobj")], [p.id("obj")]))
+        elif recv == "field":
+            ss.append(p.local(["holder"], [p.table([("k", p.add("str", s=[111], name=True), p.id("obj"))])]))
+        elif recv == "call":
+            ss.append(p.localfunction("getobj", p.func([], p.block([p.ret([p.id("obj"), p.str("extra")])]))))
         def call(args):
-            return p.method(p.id("obj"), "m", args)
+            r = {"local": lambda: p.id("obj"), "global": lambda: p.id("gobj"), "field": lambda: p.field(p.id("holder"), "o"),
+                 "call": lambda: p.call(p.id("getobj"), []), "paren": lambda: p.paren(p.id("obj"))}[recv]()
+            return p.method(r, "m", args)
     elif kind == "host":
         def call(args):
             return p.call(p.id("gret"), [p.num(nres)] + args)
